@@ -1,4 +1,4 @@
-\* MODULE MCplain2q
+\* MODULE MCtouchput
 SPECIFICATION Spec
 CONSTANTS
   Procs <- MCProcs
